@@ -176,7 +176,8 @@ func (hs *clientHandshakeStateTLS13) utlsReadServerParameters(encryptedExtension
 		}
 
 		// Check if the ALPN selected by the server exists in the client's list.
-		if alps, ok := hs.uconn.config.ApplicationSettings[hs.serverHello.alpnProtocol]; ok {
+		// In TLS 1.3 the selected protocol arrives in EncryptedExtensions, not in the ServerHello.
+		if alps, ok := hs.uconn.config.ApplicationSettings[hs.uconn.clientProtocol]; ok {
 			hs.c.utls.localApplicationSettings = alps
 		} else {
 			// return errors.New("tls: server selected ALPN doesn't match a client ALPS")
